@@ -136,6 +136,11 @@ class Gen:
             base, pre, digs = rng.choice([(16, '16#', '0123456789ABCDEF'), (8, '8#', '01234567'), (2, '2#', '01')])
             ds = ''.join(rng.choice(digs) for _ in range(rng.randint(1, 6)))
             txt = ds[:1] + ('_' if len(ds) > 2 and rng.random() < 0.4 else '') + ds[1:]
+            # with or without an integer type in front (UINT#16#FF)
+            if rng.random() < 0.35 and 'typed-int' not in self.excl:
+                ty = rng.choice(['SINT', 'INT', 'DINT', 'LINT', 'USINT', 'UINT', 'UDINT', 'ULINT'])
+                self.features.add('const:typed-based')
+                return [('kw', ty), ('p', '#'), ('lit', pre + txt)], T('IntegerLiteral', N('IntegerLiteral', ('value', self.sx_signed(int(ds, base), False)), ('data_type', SOME(A(ty)))))
             return [('lit', pre + txt)], T('IntegerLiteral', N('IntegerLiteral', ('value', self.sx_signed(int(ds, base), False)), ('data_type', NONE)))
         if k == 'real':
             txt = rng.choice(['1.5', '0.25', '3.14_15', '2.5E3', '1.0e-2', '6.0E+2', '10.0'])
